@@ -7,9 +7,6 @@ mutant is not reported or a neutral variant is reported.
 """
 
 
-def run(prop, root=None):
-    try:
-        from . import mutants
-    except ImportError:
-        return 0
-    return mutants.validate(prop, root)
+def run(prop, root=None, evidence_dir=None):
+    from . import mutants
+    return mutants.validate(prop, root, evidence_dir)
